@@ -318,45 +318,17 @@ def r4_selectors(ctx):
              "a category the translator did not write must render `other`; the locale asked must be the rendered one and the "
              "rule type the key's own", floor=6)
     ast = ctx.ast
-    # the two generators are evaluated symbolically (rules/absint.py) on a plural with forms {zero, one, few}: the token
-    # text they produce is then checked arm by arm
-    from rules import absint
-    from rules.absint import AEval, C, CF, A, T, L, I, TOK
-    mfuncs = absint.file_funcs(ast, MP)
-    cat_fn = ast.fn(MP, "to_token_stream", impl_self="PluralForm")
-    rt_fns = [f for f in ast.fns_named(MP, "to_token_stream") if f.impl_self and "PluralRuleType" in f.impl_self]
-
-    def totokens(v):
-        if v[0] == "ctor" and v[1] in ("Zero", "One", "Two", "Few", "Many", "Other") and not v[2] and cat_fn is not None:
-            t = AEval(funcs={}).run_fn(cat_fn, [v])
-            return t[1] if not isinstance(t, str) and t[0] == "tok" else None
-        if v[0] == "ctor" and v[1] in ("Cardinal", "Ordinal") and rt_fns:
-            t = AEval(funcs={}).run_fn(rt_fns[0], [v])
-            return t[1] if not isinstance(t, str) and t[0] == "tok" else None
-        if v[0] == "atom":
-            return "<%s>" % v[1]
-        return None
-    this = CF("Plurals", forms=L(T(C("Zero"), A("vz")), T(C("One"), A("vo")), T(C("Few"), A("vf"))), other=A("vother"), rule_type=C("Ordinal"), count_key=A("ck"))
+    # the two generators are evaluated symbolically (rules/genplurals.py) on a plural with forms {zero, one, few}: the
+    # token text they produce is then checked arm by arm
+    from rules import genplurals
+    outs = genplurals.evaluate(ast)
+    P = "l_i18n_crate::reexports::icu::plurals::PluralCategory::"
+    RT = "l_i18n_crate::reexports::icu::plurals::PluralRuleType::Ordinal"
     for name in ("as_string_impl", "to_token_stream"):
-        cands = [f for f in ast.fns_named(MP, name) if f.impl_self is None]
-        fn = cands[0] if cands else None
+        fn, txt, raw = outs.get(name, (None, None, None))
         if fn is None:
             r.missing("plurals::" + name)
             continue
-        ev = AEval(funcs={k: v for k, v in mfuncs.items() if k not in ("as_string_impl", "to_token_stream", "new", "from")})
-        ev.totokens = totokens
-        ev.path_builtins = {
-            "parsed_value::as_string_impl": lambda a: TOK("S%s" % totokens(a[0])), "parsed_value::to_token_stream": lambda a: TOK("V%s" % totokens(a[0])),
-            "Key::new": lambda a: C("Some", TOK("LOCALE")), "EitherOfWrapper::new": lambda a: CF("Either", n=a[0]), "KeyPath::new": lambda a: A("kp"),
-            "PluralForm::from": lambda a: a[0], "PluralRuleType::from": lambda a: a[0],
-        }
-        ev.builtins = {"unwrap_at": lambda rv, a: (rv[2][0] if rv[0] == "ctor" and rv[1] in ("Some", "Ok") else rv),
-                       "wrap": lambda rv, a: TOK("W%s/%s[%s]" % (a[0][1], dict(rv[3])["n"][1], a[1][1])), "is_interpol": lambda rv, a: C("None")}
-        args = [this, A("ck"), A("strings_count")] if name == "as_string_impl" else [this, A("strings_count")]
-        v = ev.run_fn(fn, args)
-        txt = re.sub(r"\s+", "", v[1]) if not isinstance(v, str) and v[0] == "tok" else None
-        P = "l_i18n_crate::reexports::icu::plurals::PluralCategory::"
-        RT = "l_i18n_crate::reexports::icu::plurals::PluralRuleType::Ordinal"
         if name == "as_string_impl":
             want = "{let_plural_rules=l_i18n_crate::__private::get_plural_rules(*LOCALE,%s);match_plural_rules.category_for(core::clone::Clone::clone(<ck>)){%sZero=>{S<vz>},%sOne=>{S<vo>},%sFew=>{S<vf>},_=>S<vother>,}}" % (RT, P, P, P)
         else:
@@ -365,7 +337,7 @@ def r4_selectors(ctx):
             r.inst("macro plurals::" + name, "match category_for(count) { <category of each written form> => that form's value, _ => other } with get_plural_rules(locale field, this plural's rule type)")
             r.inst("macro plurals::%s#arm" % name, "one arm per written form, in order, each with the ICU category of the same name")
         else:
-            r.viol("R4:plurals::" + name, "for forms {zero, one, few} (ordinal) the generator produces `%s`; expected `%s`" % (txt if txt is not None else v, want), file=fn.file, line=fn.line)
+            r.viol("R4:plurals::" + name, "for forms {zero, one, few} (ordinal) the generator produces `%s`; expected `%s`" % (txt if txt is not None else raw, want), file=fn.file, line=fn.line)
     fn = ast.fn(PP, "populate_with_count_arg", impl_self="Plurals")
     if fn is None:
         r.missing("Plurals::populate_with_count_arg")
